@@ -39,6 +39,9 @@ type C03Op struct {
 	Odd    bool     `json:"odd,omitempty"`    // decoded ingress with \DDD escapes for printable octets
 	Upper  uint32   `json:"upper,omitempty"`
 	Purge  bool     `json:"purge,omitempty"`  // purge this question instead of asking it
+	// Cut recipe (signed zone sq.test.): "deny" asks nx.sq.test. (validated NXDOMAIN, a subtree
+	// cut), "grow" creates below.nx.sq.test. in the zone, "below" asks it.
+	Cut string `json:"cut,omitempty"`
 }
 
 type C03Scenario struct {
@@ -57,7 +60,7 @@ func init() {
 			"Distinct = hash of per-operation (family, type, CD, ingress, from-cache, rcode).",
 		Assumptions: []string{
 			"collisions on the 64-bit key are produced by narrowing the hash result (verifxxhash shim in internal/cache/key.go and key_wire.go); the collision handling under test is unchanged",
-			"client-subnet scoping is C19's; the zone is insecure, so RFC 8020 cuts and denial-proof reuse (which need validated denials) are exercised by C02/C01 worlds rather than here",
+			"client-subnet scoping is C19's; subtree cuts are exercised with one recipe (a signed zone that gains a name below a denied one: the CD=1 partition must see it)",
 		},
 		Components: kit.Components{
 			Real: []string{"server UDP engine + wire cache ladder", "Server.ServeMsg + Msg cache ladder", "internal/cache key functions (string, wire), full-preimage verification", "purgers", "resolver"},
@@ -140,6 +143,13 @@ func genC03(r *kit.RNG) *C03Scenario {
 			op.Purge = true
 		}
 		sc.Ops = append(sc.Ops, op)
+	}
+	if r.Chance(0.35) {
+		// a validated denial cached under CD=0 must not answer the CD=1 partition
+		at := r.Intn(len(sc.Ops) + 1)
+		rec := []C03Op{{GapMs: 300, Cut: "deny", Wire: r.Chance(0.5)}, {GapMs: 100, Cut: "grow"},
+			{GapMs: 200, Cut: "below", CD: true, Wire: true}, {GapMs: 200, Cut: "below", CD: true, Wire: false}, {GapMs: 200, Cut: "below", CD: r.Chance(0.5), Wire: r.Chance(0.5)}}
+		sc.Ops = append(sc.Ops[:at:at], append(rec, sc.Ops[at:]...)...)
 	}
 	return sc
 }
@@ -238,6 +248,8 @@ func c03Run(sc *C03Scenario, tr *kit.Trace, res *kit.Result) {
 			{Name: ".", Signed: true, Alg: dns.ED25519, KeyIdx: 1, NSNames: []string{"a.root-servers.net."}, Addrs: []string{"198.41.0.4"}},
 			{Name: "test.", Signed: true, Secure: true, Alg: dns.ED25519, KeyIdx: 2, NSNames: []string{"ns.test."}, Addrs: []string{"192.0.9.1"}},
 			{Name: "uq.test.", NSNames: []string{"ns.uq.test."}, Addrs: []string{"192.0.9.7"}},
+			{Name: "sq.test.", Signed: true, Secure: true, Alg: dns.ED25519, KeyIdx: 4, NSNames: []string{"ns.sq.test."}, Addrs: []string{"192.0.9.8"},
+				Records: []string{"keep.sq.test. 300 IN A 10.9.9.1", "zz.sq.test. 300 IN A 10.9.9.2"}},
 		},
 		Cfg: world.CfgSpec{QueryTimeoutS: 5, TimeoutMs: 1500, CacheSize: 4096},
 	}
@@ -292,6 +304,12 @@ func c03Run(sc *C03Scenario, tr *kit.Trace, res *kit.Result) {
 	keysSeen := map[uint64]string{}
 	for i, op := range sc.Ops {
 		kit.SleepSettle(time.Duration(op.GapMs) * time.Millisecond)
+		if op.Cut != "" {
+			if !c03Cut(g, op, i, client, tr, res) {
+				return
+			}
+			continue
+		}
 		wire := c03Wire(op.Labels)
 		if len(wire) > 250 {
 			continue
@@ -426,4 +444,68 @@ func shrinkC03(sc any, fails func(any) bool) any {
 		}
 	}
 	return cur
+}
+
+// c03Cut runs one step of the subtree-cut recipe. The zone gains below.nx.sq.test. after
+// nx.sq.test. was denied: a CD=0 client may keep getting the cached denial (RFC 8020), a
+// CD=1 client is in another partition and must get what the zone says now.
+func c03Cut(g *world.Ing, op C03Op, i int, client netip.AddrPort, tr *kit.Trace, res *kit.Result) bool {
+	ask := func(name string) *dns.Msg {
+		q := new(dns.Msg)
+		q.SetQuestion(name, dns.TypeA)
+		q.Id = uint16(3000 + i)
+		q.CheckingDisabled = op.CD
+		q.SetEdns0(1232, false)
+		if op.Wire {
+			raw, _ := q.Pack()
+			before := len(g.K.Out)
+			g.Send(0, client, raw)
+			kit.SleepSettle(6 * time.Second)
+			for _, s := range g.K.Out[before:] {
+				if len(s.Data) > 2 && int(s.Data[0])<<8|int(s.Data[1]) == 3000+i {
+					m := new(dns.Msg)
+					if m.Unpack(s.Data) == nil {
+						return m
+					}
+				}
+			}
+			return nil
+		}
+		c := g.Res.Ask(client, "udp", q)
+		kit.Settle()
+		if len(c.Replies) == 1 {
+			return c.Replies[0]
+		}
+		return nil
+	}
+	ingress := map[bool]string{true: "wire", false: "decoded"}[op.Wire]
+	switch op.Cut {
+	case "deny":
+		m := ask("nx.sq.test.")
+		if m != nil {
+			tr.Add("op %d %s cut/deny nx.sq.test. cd=%v -> %s", i, ingress, op.CD, dns.RcodeToString[m.Rcode])
+		}
+	case "grow":
+		z := g.World.Zones["sq.test."]
+		if _, ok := z.Nodes["below.nx.sq.test."]; !ok {
+			z.Add("below.nx.sq.test. 300 IN A 10.9.9.9")
+		}
+		tr.Add("op %d cut/grow below.nx.sq.test. now exists", i)
+	case "below":
+		m := ask("below.nx.sq.test.")
+		if m == nil {
+			return true
+		}
+		grown := false
+		if _, ok := g.World.Zones["sq.test."].Nodes["below.nx.sq.test."]; ok {
+			grown = true
+		}
+		tr.Add("op %d %s cut/below below.nx.sq.test. cd=%v grown=%v -> %s an=%d", i, ingress, op.CD, grown, dns.RcodeToString[m.Rcode], len(m.Answer))
+		tr.Shape(fmt.Sprintf("cut:%v:%s:%d", op.CD, ingress, m.Rcode))
+		if grown && op.CD && m.Rcode == dns.RcodeNameError {
+			res.Fail("C03/answer-of-another-partition", "op %d (%s ingress): below.nx.sq.test./A with CD=1 was answered NXDOMAIN although the zone holds the name: a denial validated and cached for the CD=0 partition (the subtree cut of nx.sq.test.) answered a CD=1 question\n%s", i, ingress, m)
+			return false
+		}
+	}
+	return true
 }
